@@ -233,6 +233,23 @@ func (c *monC18) After(m *Machine, s *Step) *Violation {
 		c.spent[key] = fmt.Sprintf("step %d", s.I)
 		return nil
 	}
+	// a remember cookie is spent as soon as storage consumed its token - also when the request then
+	// failed (the replacement could not be stored): it must not open a session later
+	if rot := m.rotationOwner(s); rot != "" && before == "" {
+		if raw, err := base64.URLEncoding.DecodeString(r.CookBefore["rm"]); err == nil && len(raw) > 0 {
+			key := "remember-cookie|" + string(raw)
+			own, _ := credTruth(m, s, after)
+			switch {
+			case loggedIn && after == rot && !own:
+				if prev, was := c.spent[key]; was {
+					return violation("C18", "spent-credential-accepted-again:remember-cookie", "a remember cookie whose token storage had already consumed (%s) re-authenticated %q (fault %s)", prev, rot, fault)
+				}
+				c.spent[key] = fmt.Sprintf("step %d", s.I)
+			case len(r.Calls) > 0 && r.Calls[0] == "UseRememberToken" && r.Fired != "UseRememberToken":
+				c.spent[key] = fmt.Sprintf("step %d, consumed by a request that then failed at %s", s.I, r.Fired)
+			}
+		}
+	}
 	switch op.K {
 	case "otplogin":
 		if loggedIn && after == s.Pid && otpInList(s.Pre.Users[s.Pid].OTPs, s.Secret) && strings.Count(s.Pre.Users[s.Pid].OTPs, harness.OTPHash(s.Secret)) == 1 {
